@@ -154,3 +154,15 @@ Inductive gstmt : Type :=
 | GSwitch (init tag : string) (cases : list (string * list gstmt))
 | GLabel (l : string) (body : list gstmt)
 | GBlock (body : list gstmt).
+
+(* HAND MODEL of the struct-tag grammar `nbt:"name,opt,opt..."` (what the documentation says): "-" leaves the
+   field out; the part before the first comma is the name; the field has omitempty / list iff one of the
+   comma-separated parts after it is exactly that word *)
+Definition w_omitempty : list N := [111; 109; 105; 116; 101; 109; 112; 116; 121]%N.
+Definition w_list : list N := [108; 105; 115; 116]%N.
+Definition parse_tag_model (tag : list N) : option (list N * bool * bool) :=
+  if bs_eqb tag [45%N] then None else
+  match split_at 44%N tag [] with
+  | name :: opts => Some (name, existsb (fun p => bs_eqb p w_omitempty) opts, existsb (fun p => bs_eqb p w_list) opts)
+  | [] => Some ([], false, false)
+  end.
